@@ -39,7 +39,7 @@ class Voc:
                 names.append(short)
         self.class_names = names
         self.Val = z3.DeclareSort("Val")
-        self.Cls, consts = z3.EnumSort("Cls", names)
+        self.Cls, consts = z3.EnumSort("Cls", ["C_" + n for n in names])
         self.cls = dict(zip(names, consts))
         V, C = self.Val, self.Cls
         I, B, R, S = z3.IntSort(), z3.BoolSort(), z3.RealSort(), z3.StringSort()
@@ -175,6 +175,10 @@ class Voc:
             FA([x, y], z3.Implies(z3.And(self.ty(x) == self.cls["int"], self.ty(y) == self.cls["int"]),
                                   self.pyeq(x, y) == (self.V2I(x) == self.V2I(y))), patterns=[self.pyeq(x, y)]),
         ]
+        # classes without a custom __eq__ compare by identity
+        for cname in ("UnknownType", "NoneType"):
+            if cname in self.cls:
+                A.append(FA([x, y], z3.Implies(z3.And(self.ty(x) == self.cls[cname], self.pyeq(x, y)), x == y), patterns=[self.pyeq(x, y)]))
         # sequences
         A += [
             FA([s], self.slen(s) >= 0, patterns=[self.slen(s)]),
@@ -182,7 +186,8 @@ class Voc:
             self.slen(self.tnil) == 0, self.ty(self.tnil) == self.cls["tuple"],
             FA([s, e], z3.And(self.slen(self.sapp(s, e)) == self.slen(s) + 1,
                               self.sat(self.sapp(s, e), self.slen(s)) == e,
-                              self.ty(self.sapp(s, e)) == self.ty(s)), patterns=[self.sapp(s, e)]),
+                              self.ty(self.sapp(s, e)) == z3.If(self.ty(s) == self.cls["tuple"], self.cls["tuple"], self.cls["list"])),
+               patterns=[self.sapp(s, e)]),
             FA([s, e, j], z3.Implies(z3.And(0 <= j, j < self.slen(s)), self.sat(self.sapp(s, e), j) == self.sat(s, j)),
                patterns=[self.sat(self.sapp(s, e), j)]),
             # membership (fold style + witnesses)
@@ -196,7 +201,8 @@ class Voc:
             FA([s, j], z3.Implies(z3.And(0 <= j, j < self.slen(s)), self.shas(s, self.sat(s, j))),
                patterns=[self.sat(s, j)]),
             FA([s, s2], z3.And(self.slen(self.sconcat(s, s2)) == self.slen(s) + self.slen(s2),
-                               self.ty(self.sconcat(s, s2)) == self.ty(s)), patterns=[self.sconcat(s, s2)]),
+                               self.ty(self.sconcat(s, s2)) == z3.If(self.ty(s) == self.cls["tuple"], self.cls["tuple"], self.cls["list"])),
+               patterns=[self.sconcat(s, s2)]),
             FA([s, s2, j], z3.Implies(z3.And(0 <= j, j < self.slen(s) + self.slen(s2)),
                                       self.sat(self.sconcat(s, s2), j) ==
                                       z3.If(j < self.slen(s), self.sat(s, j), self.sat(s2, j - self.slen(s)))),
@@ -259,7 +265,7 @@ class Voc:
             FA([d, k, x, k2], self.dget(self.dset(d, k, x), k2) == z3.If(k2 == k, x, self.dget(d, k2)),
                patterns=[self.dget(self.dset(d, k, x), k2)]),
             FA([d, k, x], z3.And(self.dlen(self.dset(d, k, x)) == z3.If(self.dhas(d, k), self.dlen(d), self.dlen(d) + 1),
-                                 self.ty(self.dset(d, k, x)) == self.ty(d),
+                                 self.ty(self.dset(d, k, x)) == z3.If(self.ty(d) == self.cls["defaultdict"], self.cls["defaultdict"], self.cls["dict"]),
                                  self.dkeys(self.dset(d, k, x)) == z3.If(self.dhas(d, k), self.dkeys(d), self.sapp(self.dkeys(d), k))),
                patterns=[self.dset(d, k, x)]),
             FA([d, k, k2], self.dhas(self.ddel(d, k), k2) == z3.And(self.dhas(d, k2), k2 != k), patterns=[self.dhas(self.ddel(d, k), k2)]),
